@@ -116,6 +116,15 @@ fn main() {
         }
         let Ok(mut sc) = serde_json::from_value::<Scenario>(case.clone()) else { continue };
         sc.prop = prop.to_string();
+        // a case belongs to the property whose kind of reader it has
+        let relevant = match prop {
+            "C01" => sc.readers.iter().any(|r| *r),
+            "C02" => sc.readers.iter().any(|r| !*r),
+            _ => true,
+        };
+        if !relevant {
+            continue;
+        }
         let out = eval_case(&sc);
         report.stats.case(out.key, out.nontrivial, &out.classes);
         report.stats.class("regress_case");
